@@ -39,6 +39,14 @@ def interior_mutants(b: bytes) -> t.Iterator[t.Tuple[str, int, bytes]]:
 
 
 def deliver(role: str, data: bytes, chunks: t.List[bytes], state: str = "open-outstanding") -> t.Tuple[t.Optional[t.Tuple[str, str]], str]:
+    try:
+        with K.guard(10 + len(data) // 5000):
+            return _deliver(role, data, chunks, state)
+    except K.CallDoesNotReturn as e:
+        return ("pdu-never-answered", f"receive does not return: {e}"), "mismatch"
+
+
+def _deliver(role: str, data: bytes, chunks: t.List[bytes], state: str = "open-outstanding") -> t.Tuple[t.Optional[t.Tuple[str, str]], str]:
     s = c05.make_session(role, state)
     got = 0
     delivered = 0
